@@ -149,9 +149,36 @@ func (w *world) drawAdvance() time.Duration {
 }
 
 func (w *world) step() {
+	if w.probeCaps > 0 {
+		w.probeCaps--
+		now := time.Now()
+		var cand []*peerSt
+		for _, p := range w.peers {
+			if !w.mayLive(p, now) {
+				cand = append(cand, p)
+			}
+		}
+		if len(cand) > 0 && w.draw("probe?", 100) < 70 {
+			p := cand[w.draw("probe", len(cand))]
+			w.label("probe-after-refused-refresh")
+			cs := w.drawConn(p, "probec")
+			if w.draw("probe-ip", 100) < 60 {
+				for _, q := range w.peers {
+					if q.rs.desynced && w.mayLive(q, now) {
+						cs = w.connAtIP(p, q.rs.ip)
+					}
+				}
+			}
+			w.opReserve(p, cs, "")
+			return
+		}
+	}
 	x := w.draw("op", 100)
+	if x >= 16 && x < 22 && w.stepCrossRefresh() {
+		return
+	}
 	switch {
-	case x < 25: // RESERVE
+	case x < 22: // RESERVE
 		p := w.drawPeer("rp")
 		cs := w.drawConn(p, "rc")
 		fault := ""
@@ -160,20 +187,40 @@ func (w *world) step() {
 			fault = fs[w.draw("rfault", len(fs))]
 		}
 		w.opReserve(p, cs, fault)
-	case x < 55: // CONNECT
+	case x < 50: // CONNECT
 		w.stepConnect()
-	case x < 67:
+	case x < 62:
 		w.advance(w.drawAdvance())
-	case x < 73: // disconnect
+	case x < 72: // disconnect, preferably a direct connection of a peer that holds something
 		p := w.drawPeer("dp")
+		if w.draw("dpref", 100) < 60 {
+			now := time.Now()
+			var holders []*peerSt
+			for _, q := range w.peers {
+				if (w.mayLive(q, now) || w.openCount(q, false) > 0) && len(q.openConns()) > 0 {
+					holders = append(holders, q)
+				}
+			}
+			if len(holders) > 0 {
+				p = holders[w.draw("dholder", len(holders))]
+			}
+		}
 		if oc := p.openConns(); len(oc) > 0 {
+			cs := oc[w.draw("dc", len(oc))]
+			if tpls[cs.tpl].relayed && w.draw("ddirect", 100) < 70 {
+				for _, c := range oc {
+					if !tpls[c.tpl].relayed {
+						cs = c
+					}
+				}
+			}
 			w.sawEnd = w.sawEnd || w.mustLive(p, time.Now())
-			w.disconnect(p, oc[w.draw("dc", len(oc))])
+			w.disconnect(p, cs)
 		}
 	case x < 80: // new connection
 		p := w.drawPeer("np")
 		if len(p.openConns()) < 3 {
-			cs := w.addConn(p, drawTpl(w.rt, "ntpl"))
+			cs := w.addConn(p, drawSecondTpl(w.rt, "ntpl"))
 			synctest.Wait()
 			w.trace = append(w.trace, "NEWCONN "+cs.name)
 		}
@@ -198,6 +245,53 @@ func (w *world) step() {
 			w.endCircuit(c, []string{"close", "half", "srcReset", "dstReset", "idle"}[w.draw("cend", 5)])
 		}
 	}
+}
+
+// connAtIP returns an open direct connection of p from the given IP, opening one if needed.
+func (w *world) connAtIP(p *peerSt, ip string) *connSt {
+	for _, cs := range p.openConns() {
+		if t := tpls[cs.tpl]; t.ip == ip && !t.relayed {
+			return cs
+		}
+	}
+	for i, t := range tpls {
+		if t.ip == ip && !t.relayed {
+			cs := w.addConn(p, i)
+			synctest.Wait()
+			w.trace = append(w.trace, "NEWCONN "+cs.name)
+			return cs
+		}
+	}
+	return w.drawConn(p, "anyconn")
+}
+
+// stepCrossRefresh: a peer holding a reservation asks again over a connection that shares
+// its IP with another reserved peer.
+func (w *world) stepCrossRefresh() bool {
+	now := time.Now()
+	var holders []*peerSt
+	for _, p := range w.peers {
+		if w.mustLive(p, now) && p.rs.ipCertain {
+			holders = append(holders, p)
+		}
+	}
+	if len(holders) < 2 {
+		return false
+	}
+	p := holders[w.draw("xr-p", len(holders))]
+	var others []*peerSt
+	for _, q := range holders {
+		if q != p && q.rs.ip != p.rs.ip {
+			others = append(others, q)
+		}
+	}
+	if len(others) == 0 {
+		return false
+	}
+	q := others[w.draw("xr-q", len(others))]
+	w.label("cross-ip-refresh")
+	w.opReserve(p, w.connAtIP(p, q.rs.ip), "")
+	return true
 }
 
 func (w *world) stepConnect() {
@@ -430,7 +524,7 @@ func (w *world) run() {
 
 func TestRelayHistories(t *testing.T) {
 	name := t.Name()
-	hx.Check(t, 1500, 60000, 0, func(rt *rapid.T) {
+	hx.Check(t, 24000, 1200000, 0, func(rt *rapid.T) {
 		cfg := drawConfig(rt)
 		var w *world
 		hx.Bubble(t, rt, func() {
